@@ -255,3 +255,6 @@ def run(run):
     except ImportError:
         run.note("M4 not built yet")
     run.assume("text extent is font dependent and not bounded here")
+
+
+run_flow = run
